@@ -38,9 +38,9 @@ Qed.
 
 (* HEADLINE: the delta between identical versions contains no statement - for every model, every map order,
    every variant of the guards *)
-Theorem delta_identity cfg ck fuel ord m l : delta cfg ck fuel ord m m = Ok l -> l = [].
+Theorem delta_identity sk cfg ck fuel ord m l : delta sk cfg ck fuel ord m m = Ok l -> l = [].
 Proof.
-  unfold delta. destruct (depth_map fuel ord m) as [st|]; [|discriminate]. intros [= <-].
+  unfold delta. destruct (depth_map sk fuel ord m) as [st|]; [|discriminate]. intros [= <-].
   unfold delta_from.
   assert (Hlv : forall names vt, exists vt', fold_left (delta_table_step cfg ck m m) names (vt, []) = (vt', [])).
   { induction names as [|t names IH]; intros vt; cbn [fold_left]; [eauto|].
@@ -52,16 +52,16 @@ Proof.
   destruct (Hall (levels_sorted (bydepth st)) []) as [vt' Hv]. etransitivity; [apply f_equal; exact Hv|reflexivity].
 Qed.
 
-Corollary delta_identity_changes_nothing cfg ck fuel ord m l c :
-  delta cfg ck fuel ord m m = Ok l -> exec c l = XOk c.
-Proof. intros H. rewrite (delta_identity _ _ _ _ _ _ H). reflexivity. Qed.
+Corollary delta_identity_changes_nothing sk cfg ck fuel ord m l c :
+  delta sk cfg ck fuel ord m m = Ok l -> exec c l = XOk c.
+Proof. intros H. rewrite (delta_identity _ _ _ _ _ _ _ H). reflexivity. Qed.
 
 (* ================================================================ refutations (witnesses evaluated by the kernel) *)
 Definition pcol (n:name) (ln:N) (p:prim) (pk auto:bool) : col := C n ln p 0%N None pk auto.
 Definition rcol (n:name) (ln:N) (rt rc:name) (pk:bool) : col := C n ln PInt 0%N (Some (rt, rc)) pk false.
-Definition run_create tk ck m := match create tk ck (S (length m)) id_ord m with Ok l => exec empty_cat l | OutOfFuel => XErr end.
+Definition run_create tk ck m := match create depth_stop tk ck (S (length m)) id_ord m with Ok l => exec empty_cat l | OutOfFuel => XErr end.
 Definition run_delta cfg o n :=
-  match create table_order column_order (S (length o)) id_ord o, delta cfg column_order (S (length o + length n)) id_ord o n with
+  match create depth_stop table_order column_order (S (length o)) id_ord o, delta depth_stop cfg column_order (S (length o + length n)) id_ord o n with
   | Ok c, Ok dl => exec empty_cat (c ++ dl)
   | _, _ => XErr
   end.
@@ -244,13 +244,13 @@ Qed.
 (* PARTIAL (of create_complete_ordered): with tables ordered by (line, name) - what the current source does, see
    Tables.source_shape - the creation script consists of CREATE TABLE statements only and defines every table
    of the model exactly once, whatever the line numbers (equal ones included) and the map iteration orders. *)
-Theorem create_each_table_once m d ck ord fuel :
+Theorem create_each_table_once sk m d ck ord fuel :
   wf m -> is_depth m d -> perm_oracle ord -> (length m < fuel)%nat ->
-  exists l, create ByLineName ck fuel ord m = Ok l /\
+  exists l, create sk ByLineName ck fuel ord m = Ok l /\
     forallb is_create l = true /\ Permutation (map stmt_table l) (map tname m).
 Proof.
   intros Hwf Hd Hord Hfuel.
-  destruct (depth_is_longest_path m d ord fuel Hwf Hd Hord Hfuel) as [st [Hst [_ [Hlv [_ Hnd]]]]].
+  destruct (depth_is_longest_path sk m d ord fuel Hwf Hd Hord Hfuel) as [st [Hst [_ [Hlv [_ Hnd]]]]].
   unfold create. rewrite Hst. eexists. split; [reflexivity|]. unfold create_from.
   destruct (create_levels_fold ByLineName ck m (levels_sorted (bydepth st)) ([], [])) as [H1 H2].
   split; [apply H2; reflexivity|]. rewrite H1. cbn [snd map app].
